@@ -797,6 +797,23 @@ func (e *SpecEnv) call(n *ast.CallExpr) TV {
 			return TV{VScalar{IntLit(0)}, types.Typ[types.Int]}
 		}
 		return e.fail("len of %T", a.V)
+	case "sprintf":
+		// the same uninterpreted function the fmt.Sprintf intrinsic produces
+		ft := e.term(e.eval(n.Args[0]))
+		var parts []Term
+		var sorts []Sort
+		fname := "sprintf." + ft.S
+		for _, a := range n.Args[1:] {
+			t := e.term(e.eval(a))
+			parts = append(parts, t)
+			sorts = append(sorts, t.Sort)
+			fname += "." + string(t.Sort)
+		}
+		f := e.x.sym.Func(fname, sorts, SStr)
+		if len(parts) == 0 {
+			return TV{VScalar{Term{f, SStr}}, types.Typ[types.String]}
+		}
+		return TV{VScalar{App(SStr, f, parts...)}, types.Typ[types.String]}
 	case "isnil":
 		return TV{VScalar{e.isNil(e.eval(n.Args[0]))}, boolT}
 	case "opt":
